@@ -158,6 +158,40 @@ def check(pid: str, tier: str, seed: int):
                 model_after = None
             if model_after != model_before:
                 pv.append("generation or analysis changed the model's serialized form")
+            def by_name(g):
+                return {n.full_name: (n.type, None if n.defense_status is None else float(n.defense_status), n.existence_status,
+                                      bool(n.is_viable), bool(n.is_necessary), json.dumps(n.ttc, sort_keys=True), sorted(str(t) for t in n.tags),
+                                      sorted(c.full_name for c in n.children), sorted(a.name for a in n.compromised_by)) for n in g.nodes}
+            if not pv and graphs:
+                # the model as built through the API (in memory) and the model read from its file denote the same graph
+                # (node ids follow the order of the assets, which a YAML file sorts: compared by full name)
+                try:
+                    with C.time_limit(20):
+                        g0 = AttackGraph(lg, m0)
+                        g0.attach_attackers()
+                        calculate_viability_and_necessity(g0)
+                    if by_name(g0) != by_name(graphs[0]):
+                        bad_names = [k for k in by_name(g0) if by_name(graphs[0]).get(k) != by_name(g0)[k]][:3]
+                        pv.append('the graph generated from the model in memory differs from the graph generated from its saved file (' + ', '.join(bad_names) + ')')
+                except Exception as e:
+                    pv.append(f'generation raised {type(e).__name__}')
+            if not pv and graphs:
+                # an edit of the model between two generations: the second graph is the graph of the edited content
+                cand = [(c, f, x) for c in m.associations for f in m.get_association_field_names(c)
+                        for x in list(getattr(c, f)) if len(getattr(c, f)) >= 2]
+                if cand:
+                    c, f, x = cand[rng.randrange(len(cand))]
+                    try:
+                        with C.time_limit(30):
+                            m.remove_asset_from_association(x, c)
+                            g_same = AttackGraph(lg, m)
+                            ef = os.path.join(scratch, f'{label}.edited.json')
+                            m.save_to_file(ef)
+                            g_fresh = AttackGraph(lg, Model.load_from_file(ef, lcf))
+                        if json.dumps(g_same._to_dict(), default=str) != json.dumps(g_fresh._to_dict(), default=str) or edge_lists(g_same) != edge_lists(g_fresh):
+                            pv.append('after an edit of the model, generating from the same model object and from a fresh object with the same content give different graphs')
+                    except Exception as e:
+                        pv.append(f'generation after an edit of the model raised {type(e).__name__}')
             if pv:
                 # already a violation with a concrete pair: the further routes would only repeat it (and, with inputs disturbed
                 # by generation, can take very long)
